@@ -196,7 +196,7 @@ def run(ctx: Ctx):
     for _ in range(ctx.budget(350, 6000)):
         run_history(ctx, diff_history(rng), "difference")
     # (d) histories around time fields of different scale / format, equal epochs, epochs microseconds apart
-    for _ in range(ctx.budget(220, 5000)):
+    for _ in range(ctx.budget(220, 2500)):
         run_history(ctx, time_history(rng), "time")
 
 
